@@ -75,6 +75,9 @@ def gen_case(rng, tier, i):
     sched.append(["start"])
     if rng.random() < 0.3:
         sched.append(rng.choice([["step"], ["start"], ["run_up_to_including", _lit(clock, end)]]))     # after the end: must be refused
+    if rng.random() < 0.3:
+        # a bound that is not a number: refused, nothing executed, nothing changed, the schedule continues as if it were not there
+        sched.insert(rng.randrange(len(sched)), ["nanbound", rng.choice(["run_up_to", "run_up_to_including"])])
     return {"prog": prog, "sched": sched}
 
 
@@ -116,6 +119,16 @@ def run_case(case, ctx):
             startable = ref.can_start()
             name = c[0]
             kinds.add(name)
+            if name == "nanbound":
+                import math
+                out = h.cmd(c[1], math.nan)
+                h.wait_quiescent(20)
+                snap = h.snapshot()
+                ctx.count("not-a-number_bounds_issued")
+                if out == "ok" or h.trace(first) or snap != before:
+                    ctx.viol("not-a-number-bound:accepted-or-changed-something", {**w, "outcome": out, "before": before, "after": snap})
+                    return
+                continue
             if name in ("run_up_to", "run_up_to_including"):
                 b = tnum(prog, c[1])
                 if b in ev_times:
